@@ -858,6 +858,13 @@ func runPlan(tt *testing.T, p *plan) (errs []string, digest string, nontrivial b
 			errs = append(errs, fmt.Sprintf("call %d (%s) returned neither a response nor an error", i, c.Token))
 			continue
 		}
+		if c.Kind == kindApiVersions && r.resp.GetVersion() < 3 {
+			// ApiVersions v0-v2 requests have no fields: the token is not on the wire, so the reply
+			// cannot be attributed to one call (happens after a hostile handshake left the client
+			// with a low version for key 18)
+			ev.Class("apiversions_call_below_v3_not_attributable")
+			continue
+		}
 		got := r.resp.AppendTo(nil)
 		matched := false
 		var cands []string
